@@ -81,4 +81,13 @@ MUTANTS = [
     ("c10-local-remove-keeps-nmt", "C10", "canopen/node/local.py", "        self.network.unsubscribe(0, self.nmt.on_command)\n", ""),
     ("c10-notify-reversed", "C10", "canopen/network.py", "            for callback in callbacks:\n                callback(can_id, data, timestamp)", "            for callback in reversed(callbacks):\n                callback(can_id, data, timestamp)"),
     ("c10-replace-keeps-old", "C10", "canopen/network.py", "        if node_id in self.nodes:\n            # Remove old callbacks\n            self.nodes[node_id].remove_network()", "        if node_id in self.nodes and type(self.nodes[node_id]) is type(node):\n            # Remove old callbacks\n            self.nodes[node_id].remove_network()"),
+    # ---- C16
+    ("c16-reset-clears-log", "C16", "canopen/emcy.py", "                # Error reset\n                self.active = []", "                # Error reset\n                self.active = []\n                self.log = []"),
+    ("c16-reset-mask", "C16", "canopen/emcy.py", "            if code & 0xFF00 == 0:", "            if code & 0xF000 == 0:"),
+    ("c16-callback-order", "C16", "canopen/emcy.py", "        for callback in self.callbacks:\n            callback(entry)", "        for callback in reversed(self.callbacks):\n            callback(entry)"),
+    ("c16-desc-mask", "C16", "canopen/emcy.py", '(0x5000, 0xFF00, "Device Hardware")', '(0x5000, 0xF000, "Device Hardware")'),
+    ("c16-reset-entry-not-logged", "C16", "canopen/emcy.py", "                self.active.append(entry)\n            self.log.append(entry)", "                self.active.append(entry)\n                self.log.append(entry)"),
+    ("c16-wait-returns-first", "C16", "canopen/emcy.py", "                emcy = self.log[-1]", "                emcy = self.log[prev_log_size - 1] if prev_log_size else self.log[-1]"),
+    ("c16-producer-pad", "C16", "canopen/emcy.py", 'EMCY_STRUCT = struct.Struct("<HB5s")', 'EMCY_STRUCT = struct.Struct("<HB5p")'),
+    ("c16-wait-no-notify", "C16", "canopen/emcy.py", "            self.log.append(entry)\n            self.emcy_received.notify_all()", "            self.log.append(entry)\n            if self.active:\n                self.emcy_received.notify_all()"),
 ]
